@@ -474,9 +474,9 @@ func (h *handler) processStreamingRpc(
 		return nil
 	}
 
-	if resetStream {
+	if rpc.GetReset_() != nil {
 		// In this case we've got a reset for something that no longer exists, so can
-		// safely ignore it.
+		// safely ignore it. (A reset never opens a stream, whatever its type.)
 		return nil
 	}
 
